@@ -23,7 +23,7 @@ func c08ListingCheck(r *histRunner, where string) error {
 	refs := map[int]*bucketRef{}
 	for b := 0; b < cfg.NumBucket; b++ {
 		if cfg.served(b) {
-			refs[b] = &bucketRef{rt: &refTree{depth: depth, height: cfg.TreeHeight, items: map[uint64]refItem{}}, tomb: map[uint64]bool{}}
+			refs[b] = &bucketRef{rt: &refTree{Depth: depth, Height: cfg.TreeHeight, Items: map[uint64]refItem{}}, tomb: map[uint64]bool{}}
 		}
 	}
 	for k, m := range r.model {
@@ -41,7 +41,7 @@ func c08ListingCheck(r *histRunner, where string) error {
 			if len(m.Vers) != 1 {
 				return infraf("version of %q not narrowed: %v", key, m.Vers)
 			}
-			br.rt.items[h] = refItem{m.Vers[0], verifkit.Vhash(m.Val)}
+			br.rt.Items[h] = refItem{Ver: m.Vers[0], Vhash: verifkit.Vhash(m.Val)}
 		case stDeleted:
 			br.tomb[h] = true
 		}
@@ -59,7 +59,7 @@ func c08ListingCheck(r *histRunner, where string) error {
 		}
 		prefixes := [][]int{bp}
 		n := 0
-		for h := range br.rt.items {
+		for h := range br.rt.Items {
 			if n >= 6 {
 				break
 			}
@@ -96,7 +96,7 @@ func c08ListingCheck(r *histRunner, where string) error {
 				if br == nil {
 					return 0, 0
 				}
-				return br.rt.nodeHash(prefix), br.rt.count(prefix)
+				return br.rt.NodeHash(prefix), br.rt.Count(prefix)
 			}
 			var hash uint16
 			var cnt uint32
